@@ -71,7 +71,7 @@ def opsC15 : Handler := fun st fields =>
     match constTable.find? (fun c => c.spec.name == n) with
     | none => some (st, "none")
     | some c =>
-      some (st, s!"ok\t{c.value}\t{c.unitScale}\t{c.spec.dim.str}\t{c.spec.unit}\t{",".intercalate c.spec.aliases}")
+      some (st, s!"ok\t{c.value}\t{c.unitScale}\t{c.spec.dim.str}\t{c.spec.unit}\t{",".intercalate c.spec.aliases}\t{";".intercalate (c.unitFactors.map fun p => s!"{p.1}:{ratStr p.2}")}")
   | ["c15.dump.consts"] => some (st, "ok\t" ++ ",".intercalate (constTable.map (·.spec.name)))
   | ["c15.dump.spaces"] => some (st, "ok\t" ++ ",".intercalate (spaces.map (·.1)))
   | ["c15.dump.space", s] =>
@@ -122,6 +122,7 @@ def opsC15 : Handler := fun st fields =>
   | ["c15.check", "constdoubles"] => some (st, s!"ok\t{boolStr constCellsMatchDoubles}")
   | ["c15.check", "unitdoubles"] => some (st, s!"ok\t{boolStr unitCellsMatchDoubles}")
   | ["c15.check", "unsuffixed"] => some (st, s!"ok\t{boolStr unitSymbolsUnsuffixed}")
+  | ["c15.check", "constunits"] => some (st, s!"ok\t{boolStr constUnitsOk}")
   | ["c15.check", "top"] => some (st, s!"ok\t{boolStr (bitwiseEqual pcRows topRows)}")
   | ["c15.check", "unitconst", excl] =>
     some (st, s!"ok\t{boolStr (unitAndConstantAgree (if excl == "1" then Ref.C15.exclUnitVsConstant else []))}")
